@@ -15,7 +15,11 @@ RULE = (
     "case = (storage text|binary, 1-4 raw-storing block types with regular-expression begin/end patterns from a small "
     "AST (literals, '.', sets, concatenation, alternation, star, optional '^') that match mid-line and overlap so "
     "that declaration order matters; content with nested-looking markers, unterminated blocks, markers on the last "
-    "line without newline, empty content; binary storage with one-byte markers). BlockFile.read(x) then "
+    "line without newline, empty content; binary storage with one-byte markers). In about a third of the cases with "
+    "two or more block types some declared types are DERIVED from other declared types of the same list (declared "
+    "before or after them, chains allowed) and state their own BEGIN_PATTERN and/or END_PATTERN in place of the "
+    "inherited one (a new version of a block): a type's patterns are the ones it resolves to, however it came by "
+    "them, so the expectation is the model's for the flat list of effective patterns. BlockFile.read(x) then "
     "BlockFile.write(buffer) on the real code; observed: class and stored raw data of every element, the written "
     "output. Judged by Spec.C12.holds (elements = the dispatch refinement readBlockFile; raw data concatenate to x; "
     "output == x) and compared with the model. non-trivial = at least one declared block is selected; distinct by "
@@ -29,10 +33,44 @@ TRUSTED = ["Python re.search for the AST subset"]
 EXHAUSTIVE = {"quick": False, "thorough": False}
 
 
+def block_classes(case):
+    """the declared block types.  Without "derive": the harness's stand-alone types.  With it, entry i is
+    None or {"from": j, "own": "both"|"begin"|"end"}: type i is a subclass of declared type j that states the
+    named patterns itself and inherits the rest (read / write and, where not its own, a pattern — the
+    generator makes case["blocks"][i] the EFFECTIVE patterns, i.e. equal to j's where inherited)."""
+    binary = case["binary"]
+    flat = fsup.mk_block_classes(case["blocks"], binary)
+    derive = case.get("derive")
+    if not derive or not any(derive):
+        return flat
+    out = [None] * len(flat)
+    todo = list(range(len(flat)))
+    while todo:
+        progressed = False
+        for i in list(todo):
+            d = derive[i] if i < len(derive) else None
+            if not d:
+                out[i] = flat[i]
+            elif out[d["from"]] is not None:
+                ns = {"__slots__": []}
+                if d["own"] in ("both", "begin"):
+                    ns["BEGIN_PATTERN"] = flat[i].BEGIN_PATTERN
+                if d["own"] in ("both", "end"):
+                    ns["END_PATTERN"] = flat[i].END_PATTERN
+                out[i] = fsup.derived(type(f"Blk{i}", (out[d["from"]],), ns), i)
+            else:
+                continue
+            todo.remove(i)
+            progressed = True
+        if not progressed:
+            raise ValueError("cyclic derivation in the case")
+    return out
+
+
 def run_impl(case):
     binary = case["binary"]
     try:
-        BF, classes = fsup.mk_block_file(case["blocks"], binary, io=case.get("io"))
+        BF, classes = fsup.mk_block_file(case["blocks"], binary, classes=block_classes(case), io=case.get("io"))
         x = bytes(case["x"]) if binary else codec.dec_str(case["x"])
         f = fsup.read_text(BF, x, case.get("io"))
         cap = len(x) + 5
@@ -59,12 +97,22 @@ def judge(case, obs, resp):
     if not resp["model_holds"]:
         return {"status": "error", "why": f"the MODEL violates Spec.C12.holds: {show(resp.get('model'), case['binary'])}"}
     if "exc" in obs:
-        return {"status": "oracle", "why": f"BlockFile read/write raised {obs['exc']}: {obs.get('msg')}"}
+        return {"status": "oracle", "why": f"BlockFile read/write raised {obs['exc']}: {obs.get('msg')}{show_derive(case)}"}
     if not resp["holds"]:
-        return {"status": "oracle", "why": f"x={showx(case)}: got {show(obs, case['binary'])}; required {show(resp.get('model'), case['binary'])}"}
+        return {"status": "oracle", "why": f"x={showx(case)}{show_derive(case)}: got {show(obs, case['binary'])}; required {show(resp.get('model'), case['binary'])}"}
     if not resp["agree"]:
         return {"status": "corr", "why": "model and implementation disagree"}
     return {"status": "ok", "why": ""}
+
+
+def show_derive(case):
+    ds = [(i, d) for i, d in enumerate(case.get("derive") or []) if d]
+    if not ds:
+        return ""
+    own = {"both": "its own begin and end patterns", "begin": "its own begin pattern", "end": "its own end pattern"}
+    pats = [(fsup.pat_render(b["begin"], case["binary"]), fsup.pat_render(b["end"], case["binary"])) for b in case["blocks"]]
+    return (" [declared types (begin, end) in order: " + ", ".join(f"B{i}{p}" for i, p in enumerate(pats)) + "; "
+            + "; ".join(f"B{i} is derived from B{d['from']} with {own[d['own']]}" for i, d in ds) + "]")
 
 
 def showx(case):
@@ -96,6 +144,15 @@ def features(case, obs):
         ks = sorted({e["cls"] for e in obs["elems"] if "cls" in e})
         f += [f"block_selected={k}" for k in ks]
         f.append("has_default_lines" if any("dflt" in e for e in obs["elems"][1:]) else "no_default_lines")
+    ds = [(i, d) for i, d in enumerate(case.get("derive") or []) if d]
+    if ds:
+        f.append("derived_types")
+        f += sorted({f"derived_own_{d['own']}" for _, d in ds})
+        f += sorted({"parent_declared_earlier" if d["from"] < i else "parent_declared_later" for i, d in ds})
+        if isinstance(obs, dict) and "elems" in obs:
+            sel = {e["cls"] for e in obs["elems"] if "cls" in e}
+            if any(i in sel for i, _ in ds):
+                f.append("derived_type_selected")
     x = case["x"]
     f.append("empty_content" if not x else ("final_newline" if x[-1] == 10 else "no_final_newline"))
     return f
@@ -141,7 +198,43 @@ def rand_pat(rng):
     return {"anchored": rng.random() < 0.3, "re": rand_re(rng)}
 
 
+def add_derivation(rng, case):
+    """with probability 0.35 (two or more types): a random forest over the declared types — each type is, with
+    probability 0.5, derived from a type that precedes it in a random BUILD order (so the parent may be declared
+    before or after it) and states both patterns (0.6), only the begin (0.2) or only the end pattern (0.2)
+    itself; an inherited pattern is, in case["blocks"], the parent's effective pattern"""
+    blocks = case["blocks"]
+    n = len(blocks)
+    if n < 2 or rng.random() >= 0.35:
+        return case
+    order = list(range(n))
+    rng.shuffle(order)
+    derive = [None] * n
+    for k, i in enumerate(order):
+        if k == 0 or rng.random() < 0.5:
+            continue
+        j = rng.choice(order[:k])
+        r = rng.random()
+        own = "both" if r < 0.6 else ("begin" if r < 0.8 else "end")
+        derive[i] = {"from": j, "own": own}
+        if own == "begin":
+            blocks[i] = {"begin": blocks[i]["begin"], "end": blocks[j]["end"]}
+        elif own == "end":
+            blocks[i] = {"begin": blocks[j]["begin"], "end": blocks[i]["end"]}
+    if any(derive):
+        case["derive"] = derive
+    return case
+
+
 def random_text_case(rng):
+    return add_derivation(rng, random_text_case0(rng))
+
+
+def random_bin_case(rng):
+    return add_derivation(rng, random_bin_case0(rng))
+
+
+def random_text_case0(rng):
     blocks = [{"begin": rand_pat(rng), "end": rand_pat(rng)} for _ in range(rng.randrange(1, 5))]
     lines = []
     for _ in range(fsup.nlines(rng, 12)):
@@ -179,7 +272,7 @@ def random_text_case(rng):
     return case
 
 
-def random_bin_case(rng):
+def random_bin_case0(rng):
     marks = [0x01, 0x02, 0x30, 0x31, 0xFF, 0x0A, 0x41]
     blocks = []
     for _ in range(rng.randrange(1, 4)):
@@ -232,6 +325,27 @@ def shrinks(case):
         for i in range(len(lines)):
             yield {**case, "x": codec.enc_str("".join(lines[:i] + lines[i + 1 :]))}
     n = len(case["blocks"])
+    derive = case.get("derive")
+    if derive:
+        # the same effective patterns on stand-alone types, then one derivation less
+        yield {k: v for k, v in case.items() if k != "derive"}
+        for i, d in enumerate(derive):
+            if d:
+                yield {**case, "derive": derive[:i] + [None] + derive[i + 1 :]}
     if n > 1:
         for i in range(n):
-            yield {**case, "blocks": case["blocks"][:i] + case["blocks"][i + 1 :]}
+            c = {**case, "blocks": case["blocks"][:i] + case["blocks"][i + 1 :]}
+            if derive:
+                # case["blocks"] holds effective patterns, so the children of a removed type stay valid as
+                # stand-alone types
+                nd = []
+                for k, d in enumerate(derive):
+                    if k == i:
+                        continue
+                    if d and d["from"] == i:
+                        d = None
+                    elif d:
+                        d = {**d, "from": d["from"] - (1 if d["from"] > i else 0)}
+                    nd.append(d)
+                c["derive"] = nd
+            yield c
